@@ -98,7 +98,7 @@ func (h *HyperLogLog32) Union(a, b *HyperLogLog32) error {
 // will return an error if it is called on a receiver with a non-nil
 // hash function.
 func (h *HyperLogLog32) SetHash(fn hash.Hash32) error {
-	if h.hash == nil {
+	if h.hash != nil {
 		return errors.New("card: hash function already set")
 	}
 	h.hash = fn
